@@ -160,16 +160,13 @@ fn std_streams_hand_out_std_locks() {
     {
         let g = out.as_locked_write();
         assert!(name_of(&g).ends_with("StdoutLock<'_>") || name_of(&g).ends_with("StdoutLock"), "stdout's locked writer is std's StdoutLock");
-        core::mem::forget(g);
+        // (the guard is dropped normally: a leaked lock would hang the native replay)
     }
     {
         let g = err.as_locked_write();
         assert!(name_of(&g).ends_with("StderrLock<'_>") || name_of(&g).ends_with("StderrLock"), "stderr's locked writer is std's StderrLock");
-        core::mem::forget(g);
     }
     kani::cover!(true);
-    core::mem::forget(out);
-    core::mem::forget(err);
 }
 
 /// The process-wide choice: a write is read back; every stored value maps to a choice.
